@@ -245,6 +245,7 @@ func valStr(v []byte) string {
 // Session: a database under test in lock-step with the model.
 
 type Session struct {
+	NoStates bool // large models: do not hash the mapping after every mutation
 	Dir   string
 	Cfg   Config
 	DB    *kv.DB
@@ -500,6 +501,9 @@ func (s *Session) CheckDump(where string) bool {
 }
 
 func (s *Session) noteState() {
+	if s.NoStates {
+		return
+	}
 	if len(s.States) < 100000 {
 		s.States[s.M.Hash()] = true
 	}
